@@ -158,14 +158,14 @@ theorem argSizeOp_spec (s : JStr) : Spec [] 0 (argSizeOp s) (fun _ => True) := b
 
 /-! ## the writer scenario -/
 
-theorem ifHelperKnown_spec (p t : Nat) : Spec [Sites.writerIfWide] 0 (Writer.ifHelperKnown p t) (fun _ => True) := by
+theorem ifHelperKnown_spec (p t : Nat) : Spec [] 0 (Writer.ifHelperKnown p t) (fun _ => True) := by
   unfold Writer.ifHelperKnown
   dsimp only
   split
   · exact Spec.ret _ trivial
-  · exact Spec.bind (Spec.addU16_mem (by decide)) (fun _ _ => Spec.ret _ trivial)
+  · exact Spec.bind (Spec.guard _) (fun _ _ => Spec.ret _ trivial)
 
-theorem growOp_spec (nops nitf : Nat) : Spec [Sites.writerIfWide] 0 (Writer.growOp nops nitf) (fun _ => True) := by
+theorem growOp_spec (nops nitf : Nat) : Spec [] 0 (Writer.growOp nops nitf) (fun _ => True) := by
   unfold Writer.growOp
   refine Spec.bind (Spec.guard _) (fun _ _ => ?_)
   dsimp only
